@@ -795,10 +795,53 @@ func (fc *FnCtx) applyContract(st *State, c *Contract, home *ContractSet, homePk
 		st.pc = fc.define("pc", "Bool", and(st.pc, not(pc)))
 		fc.pendingPanics = append(fc.pendingPanics, ps)
 	}
+	// cs(e) in a callee's postcondition denotes the state when the callee's last critical section began:
+	// an unknown intermediate state (other goroutines ran before the callee got its lock). It also becomes
+	// the caller's "last critical section" for the caller's own postconditions.
+	usesCS := false
+	for _, e := range c.Ensures {
+		if mentionsCall(e.E, "cs") {
+			usesCS = true
+		}
+		for name, pf := range home.Pures {
+			if strings.Contains(pf.Text, "cs(") && mentionsCall(e.E, name) {
+				usesCS = true
+			}
+		}
+	}
+	if usesCS {
+		mid := pre.clone()
+		for _, m := range c.Modifies {
+			e2 := *env
+			e2.cur, e2.old = pre, pre
+			for _, reg := range fc.regionsOf(m, &e2) {
+				fc.havocRegion(mid, reg)
+			}
+		}
+		st.csSnap = mid
+	}
 	for _, e := range c.Ensures {
 		fc.assume(st, post.evalBool(e.E))
 	}
 	return results
+}
+
+func mentionsCall(e *SExpr, name string) bool {
+	if e == nil {
+		return false
+	}
+	if e.Kind == SCall && e.Fun != nil && e.Fun.Kind == SIdent && e.Fun.Name == name {
+		return true
+	}
+	if e.Fun != nil && mentionsCall(e.Fun, name) {
+		return true
+	}
+	for _, a := range e.Args {
+		if mentionsCall(a, name) {
+			return true
+		}
+	}
+	return false
 }
 
 // havocModifies havocs the region designated by a modifies clause. env == nil: clause of the
@@ -839,6 +882,17 @@ func (fc *FnCtx) regionsOf(m *Clause, env *SpecEnv) []region {
 					if _, isLocal := fc.lookupLocal(env, e.Args[0].Name); !isLocal {
 						ft := fc.fieldTypeOf(t, e.Name, env)
 						return []region{{key: fc.fieldKey(t, e.Name), sort: fmt.Sprintf("(Array Int %s)", fc.sortOf(ft))}}
+					}
+				}
+			}
+		}
+		if a0 := e.Args[0]; a0.Kind == SField && a0.Args[0].Kind == SIdent {
+			// pkg.Type.f : every object's field f
+			if t := fc.tryResolveType(a0.Args[0].Name+"."+a0.Name, env.homePkg); t != nil {
+				if _, isLocal := fc.lookupLocal(env, a0.Args[0].Name); !isLocal {
+					if _, bound := env.bound[a0.Args[0].Name]; !bound {
+						ot, ft := fc.fieldOwner(t, e.Name, env)
+						return []region{{key: fc.fieldKey(ot, e.Name), sort: fmt.Sprintf("(Array Int %s)", fc.sortOf(ft))}}
 					}
 				}
 			}
